@@ -16,6 +16,18 @@ COMPOSITE_MIN_FIELDS = 2
 FLOOR_PAIRS = 21
 
 
+def flatten(ci, seq, depth=0):
+    """inline components whose type only has a forwarding encoder (&str, &T): what is written is what that encoder writes"""
+    out = []
+    for x in seq:
+        ty = x["ty"]
+        if depth < 3 and ty in ci and "dec" not in ci[ty] and ty.startswith("&") and ty != "&T":
+            out += flatten(ci, encode_seq(ci[ty]["enc"], raw=True), depth + 1)
+        else:
+            out.append(x)
+    return out
+
+
 def norm_ty(t):
     return re.sub(r"\s+", "", t or "")
 
@@ -39,18 +51,26 @@ def run(ctx):
     enc_only = sorted(t for t, d in ci.items() if "dec" not in d)
     dec_only = sorted(t for t, d in ci.items() if "enc" not in d)
     R.ob(not dec_only, "CODEC", "src/db/types", "CODEC|decode-only|%s" % ",".join(dec_only), "types with Decode but no Encode: %s" % dec_only)
+    # reference forwarding impls (&T, &str) must write what the owned type writes: &str like String
     for t in enc_only:
+        if t == "&str" and "std::string::String" in pairs:
+            a = [norm_ty(x["ty"]) for x in encode_seq(ci[t]["enc"], raw=True)]
+            b = [norm_ty(x["ty"]) for x in decode_seq(pairs["std::string::String"]["dec"])]
+            # String's encoder may forward to &str: resolve one level
+            R.ob(a == b, "CODEC", ci[t]["enc"].where(), "CODEC|&str|component-types",
+                 "&str is written as %s but String is read as %s" % ([x.split("::")[-1] for x in a], [x.split("::")[-1] for x in b]),
+                 sample={"rule": "CODEC", "type": "&str", "components": a})
         R.ob(t.startswith("&"), "CODEC", "src/db/types", "CODEC|encode-only|%s" % t, "type %s has Encode but no Decode (only reference forwarding impls may)" % t)
     n_fields = 0
     for ty, d in sorted(pairs.items()):
-        e, dd = encode_seq(d["enc"]), decode_seq(d["dec"])
+        e, dd = flatten(ci, encode_seq(d["enc"], raw=True)), decode_seq(d["dec"])
         short = ty.split("::")[-1]
         et = [norm_ty(x["ty"]) for x in e]
         dt = [norm_ty(x["ty"]) for x in dd]
         # --- sequence of component types
         if ty.split("<")[0].endswith("FixedBytesED"):
             # reviewed base row: writes the N raw bytes (extend_from_slice(self.bytes)), reads [u8; N] = N raw bytes
-            ok = et == [] and len(dt) == 1 and dt[0].startswith("[u8;") and any((c.method or "") == "extend_from_slice" and
+            ok = [x for x in et if x != "bytes*"] == [] and len(dt) == 1 and dt[0].startswith("[u8;") and any((c.method or "") == "extend_from_slice" and
                  mentions(origin(d["enc"], c.args[1]), "bytes") for c in d["enc"].calls())
             R.ob(ok, "CODEC", d["enc"].where(), "CODEC|%s|raw-bytes" % short, "FixedBytesED no longer writes its N bytes raw / reads [u8; N]",
                  sample={"rule": "CODEC base", "type": short, "row": "N raw bytes <-> [u8; N]"})
